@@ -36,6 +36,9 @@ def stmt_programs(tier, rng):
             # same skeletons over a string discriminant
             ss = [s if s[0] != 'switch' else ('switch', s[1], [(None if c is None else ('lit', 'QString', 'k%d' % c[2]), b) for c, b in s[2]]) for s in ss]
             progs.append(D.Program('binding', 'int', ss, tag='switch-skeleton-string'))
+    for i, ss in enumerate(G.switch_branching_labels()):
+        if tier == 'thorough' or i % 3 == C.seed() % 3:
+            progs.append(D.Program('binding', 'int', ss, tag='switch-branching-labels'))
     for ss in G.nestings(3 if tier == 'thorough' else 2):
         progs.append(D.Program('binding', 'int', ss, tag='nesting'))
     n = 1500 if tier == 'thorough' else 150
